@@ -24,6 +24,7 @@ import time
 
 import numpy as np
 
+from vf import bigcases
 from vf import core, driverfail, poolmodel
 
 PROPERTY = "C14"
@@ -68,7 +69,7 @@ def make_config(nt, ns, use_cache, footprint=True, variant="plain", src_loc=None
     return cfg_
 
 
-def _same_result(got, want, tol=1e-12):
+def _same_result(got, want, tol=0.0):  # "exactly the result of the corresponding single run": bit for bit
     """returns None if equal, else a description"""
     for k in ("tower_name", "tower_xy", "timestamp", "params"):
         if got.get(k) != want.get(k):
@@ -145,7 +146,7 @@ def case_pool(case):
         rt.NUM_THREADS = case["parent_threads"]
         r = orig_single(cfg, cfg.towers[0], met_index=0)
         nexec += 1
-        d = _same_result(r, ref[cfg.towers[0].name][0])
+        d = _same_result(r, ref[cfg.towers[0].name][0], tol=1e-12)  # across thread settings: equal to rounding (C12)
         if d:
             v.append({"sub": "parent-threads", "sig": "parent-threads", "msg": "single run with %d threads vs 1 thread: %s; case %s" % (case["parent_threads"], d, core.canon(case))})
     # (3) serial drivers
@@ -346,7 +347,7 @@ def big_config(nt, ns, stamps, cache=False):
         met["timestamps"] = ["2024-07-01T%02d:%02d" % (i // 2, 30 * (i % 2)) for i in range(ns)]
     return parse_config_dict({
         "domain": {"nx": 8, "ny": 6, "xmax": 80.0, "ymax": 60.0, "nz": 3, "modes": [8, 6], "ref_lat": 50.0, "ref_lon": 10.0, "halo": 10.0},
-        "towers": [{"name": "mast_%d" % k, "lat": 50.0001 + 0.00008 * k, "lon": 10.0002 + 0.00011 * ((k * 3) % 5), "z_m": 4.0 + 0.5 * k} for k in range(nt)],
+        "towers": [{"name": "mast_%d" % k, "lat": 50.0001 + 0.00008 * k, "lon": 10.0002 + 0.00011 * ((k * 3) % 5), "z_m": 4.0 + 0.5 * (k % 12)} for k in range(nt)],
         "met": met, "solver": {"footprint": True, "precision": "double"}, "parallel": {"use_cache": cache}})
 
 
@@ -492,3 +493,4 @@ def run(ctx):
         "(cells whose only schedule is in order count once); evaluations counts single-run executions"
     )
     ctx.assumptions += ["FIFO dispatch of ProcessPoolExecutor (validated per trace by the observed completion order)", "threads inside one worker are not scheduled by the harness"]
+    bigcases.run(ctx, "C14")
